@@ -840,3 +840,94 @@ func WildcardMatrix() *m.Design {
 		Services: []*m.Service{{Name: "wildcards", HasHTTP: true, Methods: []*m.Method{fetch, store, remove, scoped, other}}},
 		Features: []string{"fixed-design:wildcard-matrix", "wildcard-route", "same-wildcard-location-several-verbs"}}
 }
+
+// InheritMatrix is a fixed design about Extend and Reference: user types that
+// extend a base type (also through a chain), inline payloads and results that
+// extend it, user types, result types and inline payloads whose attributes are
+// bare Attribute("name") calls filled in from a referenced type. Inherited
+// attributes (with their validations, defaults and requiredness) travel in
+// every request location and in response bodies, headers and views. The model
+// lists the inherited attributes in the inheriting object (Field.Inherit), so
+// every oracle judges the effective type while the DSL only says Extend /
+// Reference.
+func InheritMatrix() *m.Design {
+	obj := func(fs ...*m.Field) *m.Attr { return &m.Attr{Type: &m.Type{Kind: m.Object, Fields: fs}} }
+	fld := func(n string, a *m.Attr, req bool) *m.Field { return &m.Field{Name: n, Attr: a, Required: req} }
+	arr := func(e *m.Attr) *m.Attr { return &m.Attr{Type: &m.Type{Kind: m.Array, Elem: e}} }
+	vf := func(names ...string) []m.ViewField {
+		var out []m.ViewField
+		for _, n := range names {
+			out = append(out, m.ViewField{Name: n})
+		}
+		return out
+	}
+	// the attributes of the base type, built afresh for every type that lists them
+	name := func() *m.Attr { a := m.Prim(m.String); a.V = &m.Validation{MinLen: ip(3), MaxLen: ip(20)}; return a }
+	vintage := func() *m.Attr { a := m.Prim(m.Int32); a.V = &m.Validation{Min: fp(1970), Max: fp(2100)}; return a }
+	rating := func() *m.Attr {
+		a := m.Prim(m.Int)
+		a.V = &m.Validation{Min: fp(1), Max: fp(5)}
+		d := value.Int(3)
+		a.Default = &d
+		return a
+	}
+	notes := func() *m.Attr { e := m.Prim(m.String); e.V = &m.Validation{MaxLen: ip(8)}; return arr(e) }
+	baseFields := func(how string) []*m.Field {
+		fs := []*m.Field{fld("name", name(), true), fld("vintage", vintage(), false), fld("rating", rating(), false), fld("notes", notes(), false)}
+		for _, f := range fs {
+			f.Inherit = how
+		}
+		return fs
+	}
+	with := func(own []*m.Field, inherited []*m.Field) *m.Attr { return obj(append(own, inherited...)...) }
+	region := func() *m.Attr {
+		a := m.Prim(m.String)
+		a.V = &m.Validation{Enum: []value.V{value.Str("north"), value.Str("south"), value.Str("east")}}
+		return a
+	}
+	base := &m.UserType{Name: "IBase", Var: "vibase", Attr: obj(baseFields("")...)}
+	mid := &m.UserType{Name: "IMid", Var: "vimid", Extend: "IBase", Attr: with([]*m.Field{fld("region", region(), false)}, baseFields("extend"))}
+	// a chain: ILeaf extends IMid which extends IBase
+	leafInherited := append([]*m.Field{{Name: "region", Attr: region(), Inherit: "extend"}}, baseFields("extend")...)
+	leaf := &m.UserType{Name: "ILeaf", Var: "vileaf", Extend: "IMid", Attr: with([]*m.Field{fld("id", m.Prim(m.String), true), fld("stock", m.Prim(m.UInt32), false)}, leafInherited)}
+	// Reference: only the attributes named again exist; vintage becomes required here, rating keeps its default
+	refFields := func() []*m.Field {
+		n, v, r := fld("name", name(), true), fld("vintage", vintage(), true), fld("rating", rating(), false)
+		n.Inherit, v.Inherit, r.Inherit = "reference", "reference", "reference"
+		return []*m.Field{n, v, r}
+	}
+	ref := &m.UserType{Name: "IRef", Var: "viref", Reference: "IBase", Attr: with([]*m.Field{fld("id", m.Prim(m.UInt64), true)}, refFields())}
+	res := &m.UserType{Name: "IResult", Var: "viresult", Result: true, Identifier: "application/vnd.inherit.result", Reference: "IBase",
+		Attr:  with([]*m.Field{fld("id", m.Prim(m.UInt64), true)}, refFields()),
+		Views: []*m.View{{Name: "default", Fields: vf("id", "name", "vintage", "rating")}, {Name: "tiny", Fields: vf("id", "name")}}}
+	ext := &m.UserType{Name: "IExtResult", Var: "viextresult", Result: true, Identifier: "application/vnd.inherit.ext", Extend: "IBase",
+		Attr:  with([]*m.Field{fld("href", m.Prim(m.String), true)}, baseFields("extend")),
+		Views: []*m.View{{Name: "default", Fields: vf("href", "name", "vintage", "rating", "notes")}, {Name: "link", Fields: vf("href", "name")}}}
+
+	create := &m.Method{Name: "create", Payload: m.UserRef("IMid"), Result: m.UserRef("IMid"),
+		HTTP: &m.HTTPEndpoint{Routes: []m.Route{{Verb: "POST", Path: "/inherit/create"}}}}
+	update := &m.Method{Name: "update", Payload: m.UserRef("ILeaf"), Result: m.UserRef("ILeaf"),
+		HTTP: &m.HTTPEndpoint{Routes: []m.Route{{Verb: "PUT", Path: "/inherit/leaf/{id}"}}, Path: []m.Mapping{{Attr: "id"}},
+			Query: []m.Mapping{{Attr: "region"}, {Attr: "vintage", Wire: "v"}}, Headers: []m.Mapping{{Attr: "rating", Wire: "X-Rating"}}}}
+	inPayload := with([]*m.Field{fld("tenant", m.Prim(m.String), true), fld("flag", m.Prim(m.Boolean), false)}, baseFields("extend"))
+	inPayload.Type.Extend = "IBase"
+	inResult := with([]*m.Field{fld("ok", m.Prim(m.Boolean), true)}, baseFields("extend"))
+	inResult.Type.Extend = "IBase"
+	inline := &m.Method{Name: "inline", Payload: inPayload, Result: inResult,
+		HTTP: &m.HTTPEndpoint{Routes: []m.Route{{Verb: "POST", Path: "/inherit/inline/{tenant}"}}, Path: []m.Mapping{{Attr: "tenant"}},
+			Query: []m.Mapping{{Attr: "flag"}, {Attr: "vintage"}}, Headers: []m.Mapping{{Attr: "name", Wire: "X-Name"}}}}
+	byref := &m.Method{Name: "byref", Payload: m.UserRef("IRef"), Result: m.UserRef("IResult"),
+		HTTP: &m.HTTPEndpoint{Routes: []m.Route{{Verb: "POST", Path: "/inherit/byref"}}, Query: []m.Mapping{{Attr: "id"}}}}
+	show := &m.Method{Name: "show", Payload: obj(fld("id", m.Prim(m.String), true)), Result: m.UserRef("IExtResult"),
+		HTTP: &m.HTTPEndpoint{Routes: []m.Route{{Verb: "GET", Path: "/inherit/show/{id}"}}, Path: []m.Mapping{{Attr: "id"}}}}
+	n2, nt := fld("name", name(), true), fld("notes", notes(), false)
+	n2.Inherit, nt.Inherit = "reference", "reference"
+	irPayload := obj(n2, nt, fld("extra", m.Prim(m.Int), false))
+	irPayload.Type.Reference = "IBase"
+	inlineref := &m.Method{Name: "inlineref", Payload: irPayload, Result: obj(fld("ok", m.Prim(m.Boolean), true)),
+		HTTP: &m.HTTPEndpoint{Routes: []m.Route{{Verb: "POST", Path: "/inherit/inlineref"}}, Headers: []m.Mapping{{Attr: "name", Wire: "X-Name"}}}}
+	return &m.Design{API: m.API{Name: "inherit", Title: "Extend / Reference matrix"},
+		Types:    []*m.UserType{base, mid, leaf, ref, res, ext},
+		Services: []*m.Service{{Name: "inherit", HasHTTP: true, Methods: []*m.Method{create, update, inline, byref, show, inlineref}}},
+		Features: []string{"fixed-design:inherit-matrix", "extend", "extend-chain", "extend-inline-payload", "reference", "reference-result-type", "reference-inline-payload"}}
+}
